@@ -2,24 +2,104 @@ import Gallia.Model.Lifecycle
 /-
   C15 — what the property demands of a run, written without looking at how `entry_point` is built:
   the exception that ends the run by Python's `try/finally` rules, the documented exit-code mapping, and the
-  clauses a finished run has to satisfy.  `violations` is executable: the harness evaluates it on the behaviour
+  clauses a finished run has to satisfy.  `violationsW` is executable: the harness evaluates it on the behaviour
   observed from the real code, `Proofs/C15.lean` proves it empty for the model.
+
+  What the property says about the ways a run can end, or be held up, before it has started (`startOf`):
+    * the lock file cannot be opened / locked: `entry_point()` returns 72 (`exitcodes.OSFILE`, outside the documented
+      mapping 0 / n / 74 / 70 / 130 of runs that did start).  The property demands agreement between the exit code
+      and the records of the run; with no run there must be no record that could disagree: no artifacts directory,
+      no META.json, no run_meta row, no hook executed, no lifecycle point reached, no lock held afterwards, and the
+      directories of earlier runs untouched.
+    * Ctrl-C while the run waits for a lock somebody else holds: the `CancelledError` leaves `entry_point()` (it is raised
+      outside the `try`), `asyncio.run` turns it into KeyboardInterrupt: the documented 130, as a signal death.  Again no
+      record of a run may exist.  (That the process cannot end before the lock is free - the blocked `flock` thread is
+      joined - is a liveness matter the property does not speak about.)
+    * the lock is held by somebody else: the run waits; nothing of the above may happen before the lock is ours
+      (clause `lock-not-held-during-run`), afterwards the run is an ordinary run.
+    * the artifacts directory cannot be created (base not writable, a directory of that name exists): the property
+      does not say how such a run has to end - its list of endings is 'raised in setup, main or teardown' - so no
+      exit code is demanded; what it does demand is that no META.json is written into / over another run's
+      directory and that no record of a run appears.
 -/
 namespace Gallia.Lifecycle.Spec
 open Gallia.Lifecycle
 
+/-- the first of two awaited statements that raises -/
+def orElse (a b : Option Exc) : Option Exc :=
+  match a with
+  | some e => some e
+  | none => b
+
+/-- the dumpcap block of `Scanner.setup` raises when the binary is missing or does not come up -/
+def dumpcapFault (c : Cfg) (s : Script) : Option Exc :=
+  if c.art && c.dumpcap && (s.dumpcap == .missing || s.dumpcap == .syncFails) then some (.err .other) else none
+
+/-- `Scanner.setup` before it connects the transport: power supply, dumpcap -/
+def beforeConnect (c : Cfg) (s : Script) : Option Exc :=
+  orElse (if c.power then s.power else none) (dumpcapFault c s)
+
+/-- `Scanner.setup`: power supply, dumpcap, transport -/
+def scannerSetupFault (c : Cfg) (s : Script) : Option Exc := orElse (beforeConnect c s) s.connect
+
+/-- `UDSScanner.setup` after `super().setup()`: `ecu.connect()`, tester present, properties -/
+def udsSetupFault (c : Cfg) (s : Script) : Option Exc :=
+  orElse s.ecuConnect (orElse (if c.tp then s.tpStart else none) (if c.props then s.propsPre else none))
+
+/-- `setup()`: the framework's part, then the command's own code - the first statement that raises ends it -/
+def setupFault (c : Cfg) (s : Script) : Option Exc :=
+  orElse (if c.kind.isScanner then scannerSetupFault c s else none)
+    (orElse (if c.kind.isUds then udsSetupFault c s else none) s.setup)
+
+/-- `UDSScanner.teardown` before `super().teardown()`: properties, tester present, `ecu.transport.close()` -/
+def udsTeardownFault (c : Cfg) (s : Script) : Option Exc :=
+  orElse (if c.props then s.propsPost else none) (orElse (if c.tp then s.tpStop else none) s.ecuClose)
+
+/-- `Scanner.teardown`: `transport.close()`, then `dumpcap.stop()` when a capture is running -/
+def scannerTeardownFault (c : Cfg) (s : Script) : Option Exc :=
+  orElse s.close (if dumpcapActive c s then s.dcStop else none)
+
+/-- `teardown()`: the command's code, the framework's part, the command's code again -/
+def teardownFault (c : Cfg) (s : Script) : Option Exc :=
+  orElse s.tdPre
+    (orElse (if c.kind.isUds then udsTeardownFault c s else none)
+      (orElse (if c.kind.isScanner then scannerTeardownFault c s else none) s.tdPost))
+
+/-! what a half-finished setup / teardown leaves behind - described (theorems `transport_closed_iff`, `tp_stopped_iff`,
+    `dumpcap_stopped_iff`), not demanded by the property -/
+
+/-- `teardown()` up to and including the first `transport.close()` -/
+def uptoFirstClose (c : Cfg) (s : Script) : Option Exc :=
+  orElse s.tdPre (if c.kind.isUds then udsTeardownFault c s else s.close)
+
+def transportOpened (c : Cfg) (s : Script) : Bool := c.kind.isScanner && (scannerSetupFault c s).isNone
+
+def transportClosedAgain (c : Cfg) (s : Script) : Bool := (setupFault c s).isNone && (uptoFirstClose c s).isNone
+
+def tpStarted (c : Cfg) (s : Script) : Bool :=
+  c.kind.isUds && c.tp && (scannerSetupFault c s).isNone && s.ecuConnect.isNone && s.tpStart.isNone
+
+/-- `stop_cyclic_tester_present` is reached (the task is gone whether or not it raises) -/
+def tpStopReached (c : Cfg) (s : Script) : Bool :=
+  (setupFault c s).isNone && s.tdPre.isNone && (if c.props then s.propsPost else none).isNone
+
+def dcStarted (c : Cfg) (s : Script) : Bool :=
+  c.kind.isScanner && c.art && c.dumpcap && (if c.power then s.power else none).isNone &&
+    (s.dumpcap == .started || s.dumpcap == .syncFails)
+
+def dcStopDone (c : Cfg) (s : Script) : Bool :=
+  (setupFault c s).isNone && s.tdPre.isNone && (if c.kind.isUds then udsTeardownFault c s else none).isNone &&
+    s.close.isNone && s.dcStop.isNone
+
 /-- the exception that leaves `setup(); try: main() finally: teardown()`:
     a failing setup ends the run at once; otherwise an exception of the teardown replaces the one of main -/
-def raised (s : Script) : Option Exc :=
-  match s.setup with
+def raised (c : Cfg) (s : Script) : Option Exc :=
+  match setupFault c s with
   | some e => some e
   | none =>
-    match s.tdPre with
+    match teardownFault c s with
     | some e => some e
-    | none =>
-      match s.tdPost with
-      | some e => some e
-      | none => s.main
+    | none => s.main
 
 /-- the documented mapping: 0, n, 74 for the errors the command declares as expected, 70, 130 -/
 def exitOf (k : Kind) : Option Exc → Nat
@@ -32,7 +112,7 @@ def exitOf (k : Kind) : Option Exc → Nat
 
 /-- a database that cannot be opened is an unexpected error that ends the run before `setup()` -/
 def ended (c : Cfg) (s : Script) : Option Exc :=
-  if c.db && s.dbFails then some (.err .other) else raised s
+  if c.db && s.dbFails then some (.err .other) else raised c s
 
 def code (c : Cfg) (s : Script) : Nat := exitOf c.kind (ended c s)
 
@@ -40,17 +120,42 @@ def code (c : Cfg) (s : Script) : Nat := exitOf c.kind (ended c s)
 def failing (c : Cfg) (s : Script) : List Hook :=
   if c.hooks then (if s.preFails then [.pre] else []) ++ (if s.postFails then [.post] else []) else []
 
+/-- how far the prologue gets -/
+inductive Start
+  | noLock     -- the lock cannot be taken: exit code 72, nothing else
+  | lockWaitInterrupted  -- Ctrl-C while waiting for the lock
+  | noArtDir   -- the artifacts directory cannot be created
+  | started    -- the run starts (pre-hook, database, setup ...)
+  deriving DecidableEq, Repr, Inhabited
+
+def nameTaken (w : World) : Bool := w.runs.any (·.name == w.now)
+
+def startOf (w : World) (c : Cfg) : Start :=
+  if c.lock && w.lock == .broken then .noLock
+  else if c.lock && w.lock == .interrupted then .lockWaitInterrupted
+  else if c.art && (!w.baseOk || nameTaken w) then .noArtDir
+  else .started
+
 def chk (ok : Bool) (name : String) : List String := if ok then [] else [name]
 
-/-- names of the clauses of the property that a finished run `f` breaks -/
-def violations (c : Cfg) (s : Script) (f : Final) : List String :=
+/-- every directory of an earlier run is still there with the META.json it had -/
+def preserved (w : World) (f : Final) : Bool := w.runs.all fun r => f.runs.contains r
+
+/-- the clauses of a run that started -/
+def runClauses (w : World) (c : Cfg) (s : Script) (f : Final) : List String :=
   let x := code c s
   chk (f.exit == .ret x) "exit-code"
   ++ (if c.art then
         match f.metaFile with
-        | some m => chk (m.exit == x) "meta-exit-code" ++ chk (decide (m.start ≤ m.stop)) "meta-times"
+        | some m =>
+          chk (m.exit == x) "meta-exit-code" ++ chk (decide (m.start ≤ m.stop)) "meta-times"
+          -- the artifacts directory is this run's own: a new name, and the META.json just written is in it
+          ++ (match f.artDir with
+              | some n => chk (!(w.runs.any (·.name == n))) "artifacts-dir-not-fresh"
+                          ++ chk (f.runs.contains { name := n, metaTag := some m.exit }) "meta-not-in-own-directory"
+              | none => ["artifacts-dir-missing"])
         | none => ["meta-missing"]
-      else chk (f.metaFile == none) "meta-unexpected")
+      else chk (f.metaFile == none && f.artDir == none && f.runs == w.runs) "meta-unexpected")
   ++ (if c.db && !s.dbFails then
         match f.dbRow with
         | .done a b y => chk (y == x) "db-exit-code" ++ chk (decide (a ≤ b)) "db-times"
@@ -71,5 +176,36 @@ def violations (c : Cfg) (s : Script) (f : Final) : List String :=
             | none => ["post-hook-skipped"])
       else chk (!f.preRan && f.postEnv == none) "hook-ran-though-disabled")
   ++ chk (f.reports == failing c s) "hook-failure-report"
+  -- the directories of earlier runs are untouched
+  ++ chk (preserved w f) "previous-run-overwritten"
+
+/-- names of the clauses of the property that a finished run `f` breaks -/
+def violationsW (w : World) (c : Cfg) (s : Script) (f : Final) : List String :=
+  match startOf w c with
+  | .noLock =>
+    chk (f.exit == .ret 72) "exit-code"
+    ++ chk (f.metaFile == none && f.artDir == none && f.runs == w.runs) "record-of-a-run-that-did-not-start"
+    ++ chk (f.dbRow == .absent) "db-unexpected"
+    ++ chk f.dbClosed "db-left-open"
+    ++ chk f.logClosed "log-left-open"
+    ++ chk f.lockReleased "lock-held"
+    ++ chk (f.trace == [] && !f.preRan && f.postEnv == none && f.reports == []) "ran-without-lock"
+  | .lockWaitInterrupted =>
+    -- Ctrl-C: 130 - at this level either returned or as the CancelledError that `asyncio.run` turns into
+    -- KeyboardInterrupt (the interpreter then dies by SIGINT); the run has not started, so no record of it may exist
+    chk (f.exit == .escLockWait || f.exit == .ret 130) "exit-code"
+    ++ chk (f.metaFile == none && f.artDir == none && f.runs == w.runs) "record-of-a-run-that-did-not-start"
+    ++ chk (f.dbRow == .absent) "db-unexpected"
+    ++ chk f.dbClosed "db-left-open"
+    ++ chk f.logClosed "log-left-open"
+    ++ chk (f.trace == [] && !f.preRan && f.postEnv == none && f.reports == []) "ran-without-lock"
+  | .noArtDir =>
+    chk (f.metaFile == none && f.runs == w.runs) "previous-run-overwritten"
+    ++ chk (f.dbRow == .absent) "db-unexpected"
+    ++ chk (f.trace.all fun o => o.lockHeld == c.lock) "lock-not-held-during-run"
+  | .started => runClauses w c s f
+
+/-- the clauses in a benign world (lock free, artifacts base empty and writable) -/
+def violations (c : Cfg) (s : Script) (f : Final) : List String := violationsW {} c s f
 
 end Gallia.Lifecycle.Spec
